@@ -644,3 +644,58 @@ K("flip.k1_insert_rollback", ["C03"], FLIPS, "flips.rs", "flip_k1_insert_rollbac
   mutant=dict(file=FLIPS, old="    let result = match build_k1_forward_context_from_cell(tds, cell_key, vertex_key) {\n        Ok(context) => apply_bistellar_flip::<K, U, V, D, 1>(tds, kernel, &context),\n        Err(e) => Err(e),\n    };",
               new="    let context = build_k1_forward_context_from_cell(tds, cell_key, vertex_key)?;\n    let result = apply_bistellar_flip::<K, U, V, D, 1>(tds, kernel, &context);",
               desc="context construction error returns early again, leaving the vertex (F8)"))
+
+# ======================================================================================
+# C07 / C05 : canonical handles and facet keys (K-full, all 64-bit raw keys)
+# ======================================================================================
+EDGE = "src/core/edge.rs"
+FACET = "src/core/facet.rs"
+K("handles.canonical", ["C07", "C15"], FLIPS, "handles.rs", "handles_canonical_contract", "K-full",
+  [fn(FLIPS, "new", within=r"impl TriangleHandle\s*\{"), fn(FLIPS, "new", within=r"impl RidgeHandle\s*\{"),
+   dict(file=EDGE, name="EdgeKey::new", anchor=r"pub fn new\(a: VertexKey, b: VertexKey\) -> Self")],
+  timeout=900, obligations=["triangle-sorted", "triangle-permutation-invariant", "triangle-same-vertices", "edge-symmetric", "edge-canonical", "ridge-canonical", "ridge-same-slots"],
+  claim="TriangleHandle::new / RidgeHandle::new / EdgeKey::new are canonical: same handle for every argument order, holding exactly the given vertices / slots, for all key values",
+  mutant=dict(file=FLIPS, old="        if omit_a <= omit_b {\n            Self {\n                cell_key,\n                omit_a,\n                omit_b,\n            }\n        } else {\n            Self {\n                cell_key,\n                omit_a: omit_b,\n                omit_b: omit_a,\n            }\n        }",
+              new="        Self {\n            cell_key,\n            omit_a,\n            omit_b,\n        }", desc="RidgeHandle no longer sorts its two omitted slots"))
+K("facet_key.order_free", ["C05", "C15"], FLIPS, "handles.rs", "facet_key_permutation_contract", "K-full",
+  [dict(file=FACET, name="facet_key_from_vertices", anchor=r"pub fn facet_key_from_vertices"),
+   dict(file="src/core/util/hashing.rs", name="stable_hash_u64_slice", anchor=r"pub fn stable_hash_u64_slice")],
+  tier="thorough", timeout=1800, obligations=["facet-key-order-free", "facet-key-order-free-2", "facet-key-empty"],
+  bounded="facets of 2 and 3 vertices (D <= 3)",
+  assumed=["injectivity of the 64-bit facet key is NOT claimed (it is false in general: distinct vertex sets can collide); validators that key facets by hash rely on it"],
+  claim="facet_key_from_vertices depends on the vertex set only (every listing order gives the same key), for all key values")
+
+# ======================================================================================
+# C09 / C19 : duplicate-detection grid never silently mis-files a point
+# ======================================================================================
+GRID = "src/core/collections/spatial_hash_grid.rs"
+for d, tier in [(2, "quick"), (3, "thorough")]:
+    K(f"grid.key.d{d}", ["C09", "C19"], GRID, "grid.rs", f"grid_key_d{d}", "K-full",
+      [fn(GRID, "key_for_coords"), fn(GRID, "new", anchor=r"pub\(in crate::core\) fn new\(cell_size: T\) -> Self"), fn(GRID, "can_key_coords")],
+      tier=tier, timeout=1200, obligations=["usable-iff", "key-needs-usable", "key-needs-finite", "unusable-no-key"],
+      claim=f"HashGridIndex<f64,{d}>: usable <=> D <= 5 and finite cell size > 0; keys only for finite coordinates on a usable index (all f64 values)")
+K("grid.unkeyable_disables", ["C09"], GRID, "grid.rs", "grid_insert_unkeyable_disables_contract", "K-full",
+  [fn(GRID, "insert_vertex"), fn(GRID, "for_each_candidate_vertex_key")], timeout=1200,
+  obligations=["nonfinite-no-key", "unkeyable-disables", "unusable-reports-unused"], bounded="unkeyable coordinates = non-finite first coordinate",
+  claim="inserting coordinates that have no grid key disables the index, and a disabled index reports 'not used' so callers fall back to the full scan (a point is never silently missing from a trusted index)",
+  mutant=dict(file=GRID, old="        let Some(key) = self.key_for_coords(coords) else {\n            self.disable();\n            return;\n        };",
+              new="        let Some(key) = self.key_for_coords(coords) else {\n            return;\n        };", desc="index stays 'usable' although a vertex could not be filed"))
+
+# ======================================================================================
+# C03 / C02 : the rollback-snapshot decision of insert / insert_with_statistics (K-slices)
+# ======================================================================================
+_SNAP_STMTS = [r"let next_insertion_count =.*?;", r"let could_have_cells_after_insertion =.*?;", r"let snapshot_needed =.*?;"]
+_SL_INS = dict(file=DT, fn_anchor=r"pub fn insert\(&mut self, vertex: Vertex<K::Scalar, U, D>\) -> Result<VertexKey, InsertionError>",
+               stmts=_SNAP_STMTS, name="verif_slice_insert_snapshot_needed", ret="bool", result="snapshot_needed")
+_SL_INSS = dict(file=DT, fn_anchor=r"pub fn insert_with_statistics\(", stmts=_SNAP_STMTS,
+                name="verif_slice_insert_stats_snapshot_needed", ret="bool", result="snapshot_needed")
+for nm, sl, har in [("insert", _SL_INS, "insert_snapshot_decision"), ("insert_with_statistics", _SL_INSS, "insert_stats_snapshot_decision")]:
+    K(f"dt.snapshot_decision.{nm}", ["C03", "C02"], DT, "dt_slices.rs", har, "K-slice",
+      [dict(file=DT, name=f"DelaunayTriangulation::{nm} (K-slice: 3 statements)", anchor=sl["fn_anchor"])], slices=[_SL_INS, _SL_INSS], timeout=900,
+      bounded="insertion count <= 1024, EveryN n <= 16 (bit-precise modulo); K-slice: the three `let` statements that decide the snapshot, everything else in the function dropped",
+      assumed=["Tds::number_of_cells / number_of_vertices (stubs): any counts", "that the snapshot, when taken, is restored on every Err of the closure is NOT decided (InsertionError does not fit CBMC)"],
+      obligations=["snapshot-when-poststep", "no-snapshot-in-bootstrap"],
+      claim=f"DelaunayTriangulation::{nm}: the rollback snapshot is taken whenever flip repair or the scheduled Delaunay check can run for THIS insertion (decided on count + 1), for every policy pair and count",
+      mutant=dict(file=DT, old="                    .should_check(next_insertion_count));\n        let snapshot = snapshot_needed.then(|| {\n            (\n                self.tri.tds.clone(),\n                self.insertion_state,\n                self.spatial_index.clone(),\n            )\n        });\n\n        let insertion_result = (|| {\n            let hint = self.insertion_state.last_inserted_cell;\n            let (outcome, _stats) = {",
+                  new="                    .should_check(self.insertion_state.delaunay_repair_insertion_count));\n        let snapshot = snapshot_needed.then(|| {\n            (\n                self.tri.tds.clone(),\n                self.insertion_state,\n                self.spatial_index.clone(),\n            )\n        });\n\n        let insertion_result = (|| {\n            let hint = self.insertion_state.last_inserted_cell;\n            let (outcome, _stats) = {",
+                  desc="snapshot decision evaluated on the stale (pre-increment) insertion count") if nm == "insert" else None)
